@@ -1,7 +1,7 @@
 \* the code as it is, fine-grained (get_or_insert = fast ; slow, clear = len ; shard* ; release), 2 threads, two shards:
 \* every explored transition is a schedule for the puppeteer (hook points cache.goi.* / cache.clear.*)
 CONSTANTS Threads = {t1, t2}  KA = {k1, k2, k3}  KB = {k4}  Cap = 2  MaxCalls = 2  MaxHeld = 2  Fine = TRUE  InitMayFail = FALSE
-          BudgetPages = 3  Ballast = 30  ClearKeepsPinned = FALSE  ClearCountsUnderLock = FALSE  ReleaseOnInitError = FALSE
+          BudgetPages = 3  Ballast = 30  ClearKeepsPinned = FALSE  ClearCountsUnderLock = TRUE  ReleaseOnInitError = TRUE
 CONSTANT Keys <- KeysAll  ShardOf <- ShardsOneTwo
 SYMMETRY Sym
 SPECIFICATION Spec
